@@ -113,4 +113,6 @@ def sent_kv(f):
     """Reference fields in the harness's key=value rendering (strings)."""
     return {"talker": f["talker"], "report": f["report"], "nf": str(f["nf"]), "fn": str(f["fn"]),
             "id": "none" if f["id"] is None else str(f["id"]), "ch": "none" if f["ch"] is None else str(f["ch"]),
-            "data": f["data"].hex(), "fill": str(f["fill"])}
+            "data": f["data"].hex(), "fill": str(f["fill"]),
+            # AisSentence::has_more / is_fragment: "more fragments follow" / "part of a multi-sentence message"
+            "hm": "true" if f["fn"] < f["nf"] else "false", "fr": "true" if f["nf"] != 1 else "false"}
